@@ -390,7 +390,8 @@ def rule_D2(ctx):
         fn = ctx.fn(which[0], which[1], "D2")
         for c in own_nodes(fn):
             if isinstance(c, ast.Call) and isinstance(c.func, ast.Name) and c.func.id in ("SegmentAllocationTable", "RolandFileAllocationTable"):
-                a = [norm(x) for x in c.args]
+                from .util import positional_args as _pa
+                a = [norm(x) for x in _pa(ctx, fn._module, c)]
                 ok = len(a) == 3 and a[1] in ("size", "FAT_NUM_ENTRIES") and a[2] == "sector_links"
                 ctx.ob("D2", c, "allocation table object receives (stream, table size, decoded links)", ok, f"args {a}", inst=c.func.id)
     # Roland: walks start at 2 and skip the trailer words; sector_links / dirty flags sized by the table
